@@ -232,10 +232,17 @@ func c31Stream(rt *rapid.T, rec *ev.Rec) {
 	nOps := rapid.IntRange(1, 14).Draw(rt, "nOps")
 	var ops []string
 	fail := ""
+	big := false
 	for i := 0; i < nOps && fail == ""; i++ {
 		d := dirs[rapid.IntRange(0, 1).Draw(rt, "dir")]
 		if d.written == d.read || rapid.IntRange(0, 2).Draw(rt, "isWrite") == 0 {
 			n := hnLen(rt, "wlen", 0, 5000, c31WriteBounds)
+			if rapid.IntRange(0, 15).Draw(rt, "bigWrite") == 0 {
+				// one Write of many frames, and sizes around 2^16 (the frame header holds a 16-bit length)
+				n = rapid.SampledFrom([]int{63 * c31Frame, 64*c31Frame - 1, 64 * c31Frame, 64*c31Frame + 1, 65535, 65536, 65537, 70000,
+					2 * 65536, 3*65536 + 17}).Draw(rt, "bigLen")
+				big = true
+			}
 			ops = append(ops, fmt.Sprintf("%s w%d", d.name, n))
 			fail = d.write(n)
 		} else {
@@ -257,7 +264,11 @@ func c31Stream(rt *rapid.T, rec *ev.Rec) {
 				fail = fmt.Sprintf("%s: %d written bytes are never returned by Read (%d reads made no progress)", d.name, d.written-d.read, i)
 				break
 			}
-			fail = d.readOnce(drain[i%nd])
+			bs := drain[i%nd]
+			if d.written-d.read > 16384 && bs < 1024 {
+				bs += 1024 // keep the number of reads of a very long backlog bounded
+			}
+			fail = d.readOnce(bs)
 		}
 	}
 	desc := fmt.Sprintf("%s ops=[%s] drain=%v", p.desc, strings.Join(ops, ","), drain)
@@ -268,6 +279,9 @@ func c31Stream(rt *rapid.T, rec *ev.Rec) {
 	}
 	if dirs[0].written > 0 && dirs[1].written > 0 {
 		labels = append(labels, "bothDirections")
+	}
+	if big {
+		labels = append(labels, "writeOf64KiBOrMore")
 	}
 	rec.Case(desc, small, labels...)
 	if fail != "" {
